@@ -49,6 +49,10 @@ def gen_spec(r: random.Random, flavor: str, **over) -> dict:
         spec["proxy"] = "tun"
     if spec["proxy"] == "tun" and proto == "h1":
         spec["proto"] = "h1tls"
+    if spec["proto"] == "h2" and r.random() < 0.3:
+        # the server shuts connections down gracefully now and then: GOAWAY at the head/end of its n-th request
+        spec["h2_script"] = {"actions": [{"when": [r.choice(["head", "end"]), r.randrange(0, 6)], "do": "goaway",
+                                          "last": r.choice(["this", "prev", 0, 2 ** 31 - 1])}]}
     if spec["proto"] == "h1tls" and r.random() < 0.4:
         # pool believes the connection may become HTTP/2; ALPN says HTTP/1.1: concurrent requests get re-queued
         spec["pool_kw"] = {"http2": True}
@@ -348,15 +352,25 @@ class LimitObserver:
             owned_by.append(o)
             owned_pooled |= o
         owned_evicted = set()
+        in_use_evicted = set()
+        reqs = getattr(wl.pool, "_requests", None) or []
         for i, c in list(self.evicted.items()):
             o = owned_transports(c) & open_now
             if o:
                 owned_evicted |= o
+                # "evicted and being closed" is the only excuse: a connection that was dropped from the pool while a
+                # request is still assigned to it is neither - its stream still counts against the limit
+                if any(getattr(pr, "connection", None) is c for pr in reqs):
+                    in_use_evicted |= o
         self.ever_owned |= owned_pooled | owned_evicted
         if any(len(o) > 1 for o in owned_by) and len(self.viol) < 5:
             self.viol.append(("connection-owns-several-open-streams", {"owned": [sorted(o) for o in owned_by], "seq": rec["seq"]}))
         establishing = open_now - self.ever_owned
-        excused = open_now - owned_pooled - establishing
+        excused = open_now - owned_pooled - establishing - in_use_evicted
+        if len(owned_pooled) + len(in_use_evicted) + len(establishing) > self.N and in_use_evicted and len(self.viol) < 5:
+            self.viol.append(("dropped-connection-still-in-use-over-limit", {
+                "open": sorted(open_now), "owned_by_pooled": sorted(owned_pooled), "dropped_but_in_use": sorted(in_use_evicted),
+                "establishing": sorted(establishing), "limit": self.N, "seq": rec["seq"], "event": rec["ev"]}))
         self.max_excused = max(self.max_excused, len(excused))
         empty_slots = sum(1 for o in owned_by if not o)
         if (len(establishing) > empty_slots or len(owned_pooled) + len(establishing) > self.N) and len(self.viol) < 5:
